@@ -45,6 +45,7 @@ type c08Point struct {
 	Decrypt bool
 	Content int
 	Seed    uint64
+	KeyIdx  int
 }
 
 func c08Check(pt c08Point, blk kcp.BlockCrypt, ref *wire.Crypto) error {
@@ -114,8 +115,13 @@ func TestC08Grid(t *testing.T) {
 	contents := hx.EnvInt("C08_CONTENTS", 3) // 0: zeros, 1: 0xff, 2..: pseudo-random
 	var evals, nontriv int64
 	n := 0
-	for ci, name := range c08Ciphers {
-		key := c08Content(2, wire.KeyLen(name), seed+uint64(ci)*977)
+	keys := hx.EnvInt("C08_KEYS", 1)
+	if replay {
+		keys = rp.KeyIdx + 1
+	}
+	for ck := 0; ck < len(c08Ciphers)*keys; ck++ {
+		ci, name := ck%len(c08Ciphers), c08Ciphers[ck%len(c08Ciphers)]
+		key := c08Content(2, wire.KeyLen(name), seed+uint64(ci)*977+uint64(ck/len(c08Ciphers))*7919)
 		blk, err := sim.NewBlockCrypt(name, key)
 		if err != nil {
 			t.Fatal(err)
@@ -132,8 +138,8 @@ func TestC08Grid(t *testing.T) {
 			for _, inplace := range []bool{true, false} {
 				for _, dec := range []bool{false, true} {
 					for c := 0; c < contents; c++ {
-						pt := c08Point{name, l, inplace, dec, c, seed ^ uint64(l)<<20 ^ uint64(c)}
-						if replay && (pt.Cipher != rp.Cipher || pt.Len != rp.Len || pt.InPlace != rp.InPlace || pt.Decrypt != rp.Decrypt) {
+						pt := c08Point{name, l, inplace, dec, c, seed ^ uint64(l)<<20 ^ uint64(c) ^ uint64(ck/len(c08Ciphers))<<40, ck / len(c08Ciphers)}
+						if replay && (pt.Cipher != rp.Cipher || pt.Len != rp.Len || pt.InPlace != rp.InPlace || pt.Decrypt != rp.Decrypt || pt.KeyIdx != rp.KeyIdx) {
 							continue
 						}
 						evals++
@@ -156,9 +162,9 @@ func TestC08Grid(t *testing.T) {
 	rec.Exhaustive = true
 	rec.Class("grid_points", evals)
 	rec.Set("grid", "13 ciphers x lengths 0..1500 x {in place, out of place} x {encrypt, decrypt} x contents {zeros, 0xff, pseudo-random...}")
-	rec.Sample(c08Point{"aes-128", 1499, true, true, 2, seed})
-	rec.Sample(c08Point{"salsa20", 7, false, false, 2, seed})
-	rec.Sample(c08Point{"3des", 71, false, true, 0, seed})
+	rec.Sample(c08Point{"aes-128", 1499, true, true, 2, seed, 0})
+	rec.Sample(c08Point{"salsa20", 7, false, false, 2, seed, 0})
+	rec.Sample(c08Point{"3des", 71, false, true, 0, seed, 0})
 }
 
 // TestC08AEAD: Seal into the packet buffer shares the buffer's backing array;
@@ -250,7 +256,7 @@ func TestC08Concurrent(t *testing.T) {
 				defer wg.Done()
 				for r := 0; r < rounds; r++ {
 					l := 8 + (g*131+r*977)%1493
-					pt := c08Point{name, l, r%2 == 0, (g+r)%3 == 0, 2, seed + uint64(g*1000+r)}
+					pt := c08Point{name, l, r%2 == 0, (g+r)%3 == 0, 2, seed + uint64(g*1000+r), 0}
 					if err := c08Check(pt, blk, ref); err != nil {
 						select {
 						case errs <- err:
